@@ -138,7 +138,9 @@ def run(ctx):
     mc.append(ctx.tlc("RegSyncMC", "C18_live.cfg", workers=4, label="every run terminates, parallel 0-4"))
     if thorough:
         mc.append(ctx.tlc("RegSyncMC", "C18_mc_full.cfg", workers=12, timeout=3000,
-                          label="one tag: all options x all two-run histories"))
+                          label="one tag: all options x one- and two-run histories"))
+        mc.append(ctx.tlc("RegSyncMC", "C18_mc_s14fixed.cfg", workers=8, timeout=3000,
+                          label="all 2-3 element alternations over 5 tags as allow and deny list, anchored reading"))
     known_cex = {}
     cex = [("C18_mc_s14.cfg", "PostOk", "S14 filter anchoring"),
            ("C18_mc_bkforce.cfg", "BackupOk", "forced platform copy skips the backup")]
@@ -154,7 +156,7 @@ def run(ctx):
     trans = sum(r["generated"] for r in mc)
 
     # 2. scenarios: behaviours of the design with its predictions
-    n_rand, n_space = (2500, 1500) if thorough else (330, 170)
+    n_rand, n_space = (4000, 2000) if thorough else (320, 200)
     scns = []
     for cfg, n, tag in (("C18_gen.cfg", n_rand, "r"), ("C18_gen_space.cfg", n_space, "s")):
         g = ctx.tlc_scenarios("RegSyncGen", cfg, workers=1, simulate="num=%d" % n, depth=600,
@@ -166,16 +168,20 @@ def run(ctx):
         raise vlib.ToolError("generators produced only %d scenarios" % len(scns))
     # scenarios in the input class of a recorded finding are validated in their own small batch; the
     # surplus of the alternation class is re-spelled with a group (same abstract scenario)
-    cap = 40 if thorough else 8
+    cap = 20 if thorough else 4          # per class and per generator
     n_alt = n_force = respelled = 0
+    taken = {}
     for s in scns:
         s["suspect"] = ""
+        src = s["id"][0]
         if force_exposed(s):
             n_force += 1
-            s["suspect"] = "force" if n_force <= cap else "skip"
+            taken[(src, "force")] = taken.get((src, "force"), 0) + 1
+            s["suspect"] = "force" if taken[(src, "force")] <= cap else "skip"
         elif alt_exposed(s):
             n_alt += 1
-            if n_alt <= cap:
+            taken[(src, "alt")] = taken.get((src, "alt"), 0) + 1
+            if taken[(src, "alt")] <= cap:
                 s["suspect"] = "alt"
             else:
                 respelled += 1
@@ -234,7 +240,7 @@ def run(ctx):
     for batch in (traces, suspects):
         if not batch:
             continue
-        a, rj = ctx.validate_batch("RegSyncTrace", "C18_trace.cfg", batch, timeout=3000, max_reports=(12 if batch is traces else 2 * cap + 4))
+        a, rj = ctx.validate_batch("RegSyncTrace", "C18_trace.cfg", batch, timeout=3000, max_reports=(12 if batch is traces else 4 * cap + 4))
         accepted += a
         rejected += rj
     for r in rejected:
